@@ -276,10 +276,13 @@ def _linear_coeffs(c, val: X, names):
 
 # ---------------------------------------------------------------- X: native float solve (bounded run-time contract)
 
-def _native_solve(et, physics, check_results=True):
+def _native_solve(et, physics, check_results=True, mirrored=False):
     try:
         from EasyFEA import Models, Simulations
         coords, connect, interior = _star(et)
+        if mirrored:
+            # reflected patch: every element is negatively oriented (what Mesh.Symmetry or an affine image with det < 0 produces)
+            coords = [[-p[0]] + list(p[1:]) for p in coords]
         mesh = patches.real_mesh(et, coords, connect)
         dim = mesh.dim
         rng = np.random.default_rng(5)
@@ -320,10 +323,17 @@ def _native_solve(et, physics, check_results=True):
             stress = np.asarray(simu.Result("Stress", nodeValues=False))
             ess = float(np.abs(stress.reshape(-1, want.size) - (C @ km) * unkm).max() / np.abs(C @ km).max())
             meas = mesh.area * 1.3 if dim == 2 else mesh.volume
+            if mirrored:
+                # a reflection keeps the measure: the reference is the measure of the unreflected patch, which is positive
+                ref = patches.real_mesh(et, _star(et)[0], connect)
+                meas0 = ref.area * 1.3 if dim == 2 else ref.volume
+                out.update(measure=float(meas), measure_unmirrored=float(meas0))
+                bad = bad or not (meas0 > 0) or abs(meas - meas0) > 1e-9 * abs(meas0)
+                meas = meas0
             W = float(simu.Result("Wdef"))
             ew = abs(W - 0.5 * want @ C @ want * meas) / abs(0.5 * want @ C @ want * meas)
-            out.update(strain_err=es, stress_err=ess, wdef_err=float(ew))
-            bad = bad or es > 1e-9 or ess > 1e-9 or ew > 1e-9
+            out.update(strain_err=es, stress_err=ess, wdef_err=float(ew), wdef=W)
+            bad = bad or es > 1e-9 or ess > 1e-9 or ew > 1e-9 or not (W > 0)
         out["confirmed"] = bool(bad)
         return out
     except Exception as e:
@@ -331,11 +341,11 @@ def _native_solve(et, physics, check_results=True):
         return dict(confirmed=True, raised=repr(e), tb=traceback.format_exc()[-600:])
 
 
-def ob_solve(et, physics):
-    r = _native_solve(et, physics)
+def ob_solve(et, physics, mirrored=False):
+    r = _native_solve(et, physics, mirrored=mirrored)
     if r.get("confirmed"):
-        raise Refuted(f"{et} {physics}: the real Solve() does not reproduce the linear field on the star patch: {r}",
-                      cex=dict(elemType=et, physics=physics), signature=f"solve:{et}:{physics}", replay=r)
+        raise Refuted(f"{et} {physics}{' (mirrored patch)' if mirrored else ''}: the real Solve() does not reproduce the linear field on the star patch: {r}",
+                      cex=dict(elemType=et, physics=physics, mirrored=mirrored), signature=f"solve:{et}:{physics}{':mirrored' if mirrored else ''}", replay=r)
     return Verdict(DISCHARGED, backend="native float run of the real Simulations pipeline (run-time contract, tol 1e-9)", detail=str(r))
 
 
@@ -411,6 +421,9 @@ def build(tier, seed):
             obs.append(Ob(f"C01.solve.{et}.elastic", ob_solve, (et, "elastic"), "X", ("EasyFEA/Simulations/_elastic.py::Elastic", "EasyFEA/Simulations/_simu.py::_Simu.Solve"),
                           bound="one star patch per type, one random linear field, floats",
                           clause="Solve() returns the linear field; Strain/Stress/Wdef are the constants (1e-9)", timeout=300))
+            obs.append(Ob(f"C01.solve.{et}.elastic.mirrored", ob_solve, (et, "elastic", True), "X", ("EasyFEA/FEM/_group_elem.py::_GroupElem.Get_jacobian_e_pg", "EasyFEA/Simulations/_elastic.py::Elastic"),
+                          bound="reflected star patch (every element negatively oriented), one random linear field, floats",
+                          clause="same on the mirror image: linear field, constant Strain/Stress and a POSITIVE Wdef (1e-9)", timeout=300))
     obs.append(Ob("C01.solve.large.TRI3.elastic", ob_solve_large, (), "X", ("EasyFEA/Simulations/_simu.py::_Simu.Assembly", "EasyFEA/Simulations/_simu.py::_Simu.Solve"),
                   bound="one structured 154x154-node TRI3 mesh (47432 dofs > 46340), one linear field, floats",
                   clause="interior residual of the linear field vanishes and Solve() reproduces it on a system with more than 2^31 matrix positions", timeout=600))
